@@ -99,7 +99,7 @@ struct Outcome {           // what one execution of a scenario looked like from 
 };
 struct CallPlan { int fn; int obj; Vec<int> vals; Str dev; int task; bool extra; int scope; bool shortForm; int xget; bool midRoot; };   // xget: 0, or one more read of the returned value through getter number xget, whatever the stored type
 struct ExpPlan { int fn; int count; int flags; int obj; Vec<int> vals; int ret; int scope; };      // flags: 1 ignoreOtherParameters, 2 named scope, 4 short form (last parameter not specified, and not passed by its calls)
-struct Scenario { bool strict, ignoreOther, useScope, preFail; bool nestedCmp /* comparators make a mock call of their own */; bool crashOn /* crashOnFailure switched on: the crash method (a counter here) must be asked for by the same failures through both interfaces */; bool otherVal /* also read a value through the other mock support (known finding C19-support-level-value-of-other-scope) */; int rounds; int type2 /* fn6's object parameter uses a second custom type: same equality function, other to-string */, tol /* 0 none, else index into tolPool for fn3's double parameter */; Vec<ExpPlan> exps; Vec<CallPlan> calls; Vec<Op> data; };
+struct Scenario { bool strict, ignoreOther, useScope, preFail; bool nestedCmp /* comparators make a mock call of their own */; bool unmodOut /* the int output parameter is expected unmodified; calls may then pass no destination (NULL) */; bool crashOn /* crashOnFailure switched on: the crash method (a counter here) must be asked for by the same failures through both interfaces */; bool otherVal /* also read a value through the other mock support (known finding C19-support-level-value-of-other-scope) */; int rounds; int type2 /* fn6's object parameter uses a second custom type: same equality function, other to-string */, tol /* 0 none, else index into tolPool for fn3's double parameter */; Vec<ExpPlan> exps; Vec<CallPlan> calls; Vec<Op> data; };
 
 static const char* objType(const Scenario& sc) { return sc.type2 ? "MyType2" : "MyType"; }
 // how many parameters an expectation specifies: all, or all but the last for ignoreOtherParameters (functions with two or more) and for the short form (functions with one or more)
@@ -189,7 +189,7 @@ struct CppFront : public Front {
         }
         if (e.flags & 1) x.ignoreOtherParameters();
         static int outInts[8] = { 100, 101, 102, 103, 104, 105, 106, 107 };
-        if (F.out && F.outTy == T_INT) x.withOutputParameterReturning("out", &outInts[e.ret & 7], sizeof(int));
+        if (F.out && F.outTy == T_INT) { if (sc.unmodOut) x.withUnmodifiedOutputParameter("out"); else x.withOutputParameterReturning("out", &outInts[e.ret & 7], sizeof(int)); }
         if (F.out && F.outTy == T_OBJ) x.withOutputParameterOfTypeReturning("MyType", "out", &objPool[e.ret & 7]);
         int rv = e.ret & 7;
         if (rv != 7) switch (F.ret) {          // 7: no return value specified
@@ -234,7 +234,7 @@ struct CppFront : public Front {
             }
         }
         int outInt = -1; MyType outObj = { -1, 0 };
-        if (F.out && F.outTy == T_INT) x.withOutputParameter("out", &outInt);
+        if (F.out && F.outTy == T_INT) x.withOutputParameter("out", (sc.unmodOut && (c.vals.empty() ? c.task : c.vals[0] + c.task) % 2) ? (void*)0 : (void*)&outInt);      // an optional out-argument the caller does not want
         if (F.out && F.outTy == T_OBJ) x.withOutputParameterOfType("MyType", "out", &outObj);
         // returned value through every getter that is legal for the type, plus the tagged form and the defaulting getters
         Str line = sfmt("%s has=%d", F.name, (int)x.hasReturnValue());
@@ -355,7 +355,7 @@ struct CFront : public Front {
         }
         if (e.flags & 1) x->ignoreOtherParameters();
         static int outInts[8] = { 100, 101, 102, 103, 104, 105, 106, 107 };
-        if (F.out && F.outTy == T_INT) x->withOutputParameterReturning("out", &outInts[e.ret & 7], sizeof(int));
+        if (F.out && F.outTy == T_INT) { if (sc.unmodOut) x->withUnmodifiedOutputParameter("out"); else x->withOutputParameterReturning("out", &outInts[e.ret & 7], sizeof(int)); }
         if (F.out && F.outTy == T_OBJ) x->withOutputParameterOfTypeReturning("MyType", "out", &objPool[e.ret & 7]);
         int rv = e.ret & 7;
         if (rv != 7) switch (F.ret) {
@@ -398,7 +398,7 @@ struct CFront : public Front {
             }
         }
         int outInt = -1; MyType outObj = { -1, 0 };
-        if (F.out && F.outTy == T_INT) x->withOutputParameter("out", &outInt);
+        if (F.out && F.outTy == T_INT) x->withOutputParameter("out", (sc.unmodOut && (c.vals.empty() ? c.task : c.vals[0] + c.task) % 2) ? (void*)0 : (void*)&outInt);
         if (F.out && F.outTy == T_OBJ) x->withOutputParameterOfType("MyType", "out", &outObj);
         Str line = sfmt("%s has=%d", F.name, x->hasReturnValue() ? 1 : 0);
         MockValue_c rv = x->returnValue();
@@ -559,7 +559,7 @@ struct Engine : public vf::Engine {
         for (int s = 0; s < nScen; s++) {
             Group G; G.tag = "scenario";
             bool strict = w.chance(1, 4), ignoreOther = w.chance(1, 5), scope = w.chance(1, 5);
-            G.args.push_back(strict); G.args.push_back(ignoreOther); G.args.push_back(scope); G.args.push_back(w.chance(1, cfront ? 6 : 10)); G.args.push_back(cfront && w.chance(1, 6) ? 2 : 1); G.args.push_back(cfront && w.chance(1, 5)); G.args.push_back(cfront && w.chance(1, 5) ? (int64_t)w.range(1, 3) : 0); G.args.push_back(cfront && w.chance(1, 12)); G.args.push_back(cfront && w.chance(1, 6)); G.args.push_back(cfront && w.chance(1, 6));
+            G.args.push_back(strict); G.args.push_back(ignoreOther); G.args.push_back(scope); G.args.push_back(w.chance(1, cfront ? 6 : 10)); G.args.push_back(cfront && w.chance(1, 6) ? 2 : 1); G.args.push_back(cfront && w.chance(1, 5)); G.args.push_back(cfront && w.chance(1, 5) ? (int64_t)w.range(1, 3) : 0); G.args.push_back(cfront && w.chance(1, 12)); G.args.push_back(cfront && w.chance(1, 6)); G.args.push_back(cfront && w.chance(1, 6)); G.args.push_back(cfront && w.chance(1, 6));
             bool mixedScopes = !strict && !scope && w.chance(1, 4), shortForms = w.chance(1, 5);
             int nFn = (int)w.range(1, 4); int fns[4]; for (int i = 0; i < nFn; i++) fns[i] = (int)w.below(N_FN);
             int nExp = (int)w.small(1, 12);
@@ -639,7 +639,7 @@ struct Engine : public vf::Engine {
 
     // -------------------------------------------------------------------------------------------- model
     static void buildScenario(const Group& G, Scenario& sc) {
-        sc.strict = G.arg(0) != 0; sc.ignoreOther = G.arg(1) != 0; sc.useScope = G.arg(2) != 0; sc.preFail = G.arg(3) != 0; sc.rounds = G.arg(4, 1) == 2 ? 2 : 1; sc.type2 = (int)G.arg(5); sc.tol = (int)(G.arg(6) & 3); sc.otherVal = G.arg(7) != 0; sc.crashOn = G.arg(8) != 0; sc.nestedCmp = G.arg(9) != 0;
+        sc.strict = G.arg(0) != 0; sc.ignoreOther = G.arg(1) != 0; sc.useScope = G.arg(2) != 0; sc.preFail = G.arg(3) != 0; sc.rounds = G.arg(4, 1) == 2 ? 2 : 1; sc.type2 = (int)G.arg(5); sc.tol = (int)(G.arg(6) & 3); sc.otherVal = G.arg(7) != 0; sc.crashOn = G.arg(8) != 0; sc.nestedCmp = G.arg(9) != 0; sc.unmodOut = G.arg(10) != 0;
         for (size_t i = 0; i < G.ops.size(); i++) {
             const Op& o = G.ops[i];
             if (o.kind == M_EXPECT) { ExpPlan e; e.fn = (int)(o.a % N_FN); e.count = (int)o.b; e.flags = (int)o.c; e.obj = (int)o.d; e.vals = parseIdx(o.s); e.vals.resize((size_t)FNS[e.fn].np, 0); e.ret = atoi(o.s2.c_str()); e.scope = (e.flags & 2) ? 1 : 0; sc.exps.push_back(e); }
